@@ -273,6 +273,29 @@ def generate(tier, rng):
         yield 'matrix', {'spec': spec, 'form': forms[j % 2], 'geo': ['unit', 'bump'][j % 2]}
         spec1 = {'dim': 1, 'n': 4, 'p': p, 'disparity': disp, 'history': [{'0': [[2], [3]]}, {'1': [[4], [5]]}, {'2': [[8], [9]]}]}
         yield 'matrix', {'spec': spec1, 'form': forms[(j + 1) % 4], 'geo': 'bump'}
+    # simultaneous marks on several levels under a finite disparity: the finest marks lie inside an already refined region (their
+    # admissibility neighbourhood is empty), the coarser ones at the rim of their level's region (they force a refinement one level below);
+    # every marked level needs its own admissibility pass, otherwise the interlevel blocks of the matrix reach beyond the assembled window
+    for j, p in enumerate((1, 2, 2, 3)):
+        for rim in ([4], [11], [4, 11]):
+            spec = {'dim': 1, 'n': 8, 'p': p, 'disparity': 1, 'truncate': bool(j % 2),
+                    'history': [{'0': [[2], [3], [4], [5]]}, {'1': [[6], [7], [8], [9]]}, {'2': [[15], [16]], '1': [[c_] for c_ in rim]}]}
+            yield 'matrix', {'spec': spec, 'form': forms[(j + len(rim)) % 2], 'geo': geos1[j % 3]}
+    for j, (n0, a, b) in enumerate(((6, 1, 4), (10, 3, 8), (7, 2, 6))):
+        # the same pattern at other positions/sizes (p = 1 and 2): level-0 cells a..b-1, then the middle of level 1, then interior level-2
+        # cells together with both rim cells of level 1
+        l1 = list(range(2 * a, 2 * b))
+        mid1 = l1[2:-2]
+        l2 = list(range(2 * mid1[0], 2 * mid1[-1] + 2))
+        for p in (1, 2):
+            spec = {'dim': 1, 'n': n0, 'p': p, 'disparity': 1, 'truncate': bool((j + p) % 2),
+                    'history': [{'0': [[c_] for c_ in range(a, b)]}, {'1': [[c_] for c_ in mid1]}, {'2': [[c_] for c_ in l2[2:4]], '1': [[l1[0]], [l1[-1]]]}]}
+            yield 'matrix', {'spec': spec, 'form': forms[(j + p) % 2], 'geo': geos1[(j + p) % 3]}
+    for j in range(24 if quick else 200):
+        d = 1 + j % 2
+        h = hgen.random_history({'dim': 1, 'n': 4 + j % 3, 'p': 1 + j % 3, 'disparity': d, 'truncate': bool(j % 5 == 0)}, 3 + j % 2, rng, multi_level=True)
+        if any(len(step) > 1 for step in h['history']):
+            yield 'matrix', {'spec': h, 'form': forms[j % 2], 'geo': geos1[j % 3]}
     # persistent objects: histories that return to coarser levels after finer ones (no new level is added by such a step)
     for j in range(8 if quick else 40):
         dim = 1 + j % 2
